@@ -74,6 +74,7 @@ func one() []Frac { return []Frac{{1, 1}} }
 func init() {
 	// ---------------------------------------------------------------- C01
 	register("c01", Def{
+		Debug: true,
 		Rule: "table part: 28 keys x all 90 degree notations (1..15 x 6 marks) in one document per (key, symbol) for the chosen symbols, and per (key) with every bass notation on the plain triad " +
 			"(quick: 6 symbols + 12 bass notations; thorough: all 46 names/displays + all 90 bass notations); history part: seeded documents (<= 40 instances) with key changes at arbitrary " +
 			"positions, on rests too, with and without --key. All durations 1, --track 1. distinct = distinct documents",
@@ -137,6 +138,7 @@ func init() {
 
 	// ---------------------------------------------------------------- C02
 	register("c02", Def{
+		Debug: true,
 		Rule: "all sequences of length <= L over an alphabet of 17 instance kinds (incl. a chord that rounds to 0 ticks, long fraction chains in the seeded part) (chords and rests with values 1, 2, 1/2, 1/3, 2/3, 3/7, 5/4, [1,1/4], [1/3,1/3,1/3], 7/960, halfway cases 1/1920 and 3/640, " +
 			"rest carrying bpm / key) plus seeded long sequences (<= 200 instances, fractions from a pool with denominators <= 64 and /960); quick L=2 + 200 random, thorough L=3 + 3000 random; --track 1",
 		Gen: func(c *Ctx) []Case {
@@ -236,6 +238,7 @@ func init() {
 
 	// ---------------------------------------------------------------- C06
 	register("c06", Def{
+		Debug: true,
 		Rule: "seeded documents (chords with 1..6 sounding keys, rests in leading/inner/consecutive/trailing position, controls and texts interleaved, fractions) plus hand-picked shapes " +
 			"(trailing rests, rests only between controls, single chord), each written with --track N and --track 1; quick N in {2,3,7,4}, thorough N in {2,3,4,5,8,16,32}; distinct = (document, N)",
 		Gen: func(c *Ctx) []Case {
@@ -289,6 +292,7 @@ func init() {
 
 	// ---------------------------------------------------------------- C07
 	register("c07", Def{
+		Debug: true,
 		Rule: "seeded documents with bpm / meter / key / dynamic / txt / lic / mrk present or absent on every instance (on rests and after rests too), all 28 keys, all 6 dynamics, UTF-8 texts, " +
 			"x seeded flag subsets (--bpm --meter --velocity --key); plus one document per key and a document walking through all dynamics; bpm in 4..60,000,000, meter n/2^k; distinct = (document, flags)",
 		Gen: func(c *Ctx) []Case {
